@@ -40,6 +40,7 @@ GRID = {
     'hier4': {'m': [-1.0, 1.0], 's': [0.5, 2.0], 'x': [-2.0, 0.4], 'u': [-0.1, 0.0, 0.3, 1.0, 1.2]},
     'order4': {'d': [0.0, 0.25, 1.0, 1.5], 'c': [0.1, 0.25, 1.2, 2.5], 'b': [-1.0, 0.3], 'a': [-0.5, 0.0, 1.0]},
 }
+TIMEOUTS = []
 SMOOTH = ('single-norm', 'indep2-norm', 'smooth3-norm')     # all-normal, constant scales: analytic gradient below
 
 
@@ -121,7 +122,7 @@ def check_case(elfi, zoo_name, names, X=None, seeds=(0,), draws=True, grad=True,
         d = dict(signature='c08:' + (t or sig), what=('[%s] ' % sig if t else '') + what, input=dict(inp, **extra))
         return d, False
     try:
-        with native.time_limit(20):
+        with native.time_limit(120):
             mp = ModelPrior(m, list(names)) if names != all_names or X is not None else ModelPrior(m)
             if mp.parameter_names != names or mp.dim != k:
                 return fail('names', 'parameter_names/dim of the prior are %r/%r' % (mp.parameter_names, mp.dim))
@@ -209,8 +210,9 @@ def check_case(elfi, zoo_name, names, X=None, seeds=(0,), draws=True, grad=True,
                     g0 = mp.gradient_logpdf(outside[:2])
                     if np.shape(g0) != outside[:2].shape or np.any(np.asarray(g0) != 0):
                         return fail('gradient', 'gradient_logpdf outside the support is %r, the code states 0' % (np.asarray(g0).tolist(),))
-    except native.NativeTimeout as e:
-        return fail('exception', str(e))
+    except native.NativeTimeout:
+        TIMEOUTS.append(dict(inp))           # undecided (a loaded machine), never a violation
+        return None, False
     except Exception as e:
         return fail('exception', '%s: %s' % (type(e).__name__, e))
     return None, nontriv
@@ -223,9 +225,12 @@ def check_rejects(elfi, zoo_name):
     names = sorted(n for n, _, _ in ZOO[zoo_name])
     for bad, why in ((names + ['nope'], 'unknown name'), (['_' + names[0]], 'private node name'), (tuple(names), 'tuple')):
         try:
-            with native.time_limit(10):
+            with native.time_limit(60):
                 ModelPrior(m, bad)
         except ValueError:
+            continue
+        except native.NativeTimeout:
+            TIMEOUTS.append(dict(model=zoo_name, parameter_names=list(bad)))
             continue
         except Exception as e:
             return dict(signature='c08:exception', what='%s for %s: %s' % (type(e).__name__, why, e), input=dict(model=zoo_name, parameter_names=list(bad)))
@@ -244,6 +249,7 @@ def orders(names, tier, rng):
 
 def run(tier='quick', seed=0, first_failure_only=True, per_signature=True):
     elfi = native.import_elfi()
+    del TIMEOUTS[:]
     rng = np.random.RandomState(seed)
     cases = nontrivial = skipped = 0
     failures, seen = [], set()
@@ -272,14 +278,16 @@ def run(tier='quick', seed=0, first_failure_only=True, per_signature=True):
                         failures.append(f)
     return dict(name='ModelPrior-vs-scipy-products',
                 bound='%d hierarchical models <= 4 parameters; every parent-closed subset, %s; grid points inside/on/outside the support; '
-                      'matrix/vector/scalar inputs; rvs seeds %d..%d; skipped (not parent-closed) %d' % (
-                          len(ZOO), 'every order' if tier == 'thorough' else 'every order up to 3 names and 6 orders per 4-subset', seed, seed + 2, skipped),
+                      'matrix/vector/scalar inputs; rvs seeds %d..%d; skipped (not parent-closed) %d; cases without a result inside the time limit (undecided): %d' % (
+                          len(ZOO), 'every order' if tier == 'thorough' else 'every order up to 3 names and 6 orders per 4-subset', seed, seed + 2, skipped, len(TIMEOUTS)),
                 rule='non-trivial = request of >= 2 parameters whose grid has rows with zero density and rows with positive density',
                 cases=cases, nontrivial=nontrivial, failures=failures)
 
 
 def replay_input(inp):
     """True iff the property HOLDS on this input"""
+    if 'model' not in inp and isinstance(inp.get('input'), dict):       # a whole failure record (bounded replay file)
+        inp = inp['input']
     elfi = native.import_elfi()
     if 'x' not in inp:                       # a rejection case
         from elfi.model.extensions import ModelPrior
